@@ -435,7 +435,9 @@ func (ego *list) Equals(another List) bool {
 }
 
 func (ego *list) Concat(another List) List {
-	newList := &list{val: append(ego.val, another.getVal().(*list).val...)}
+	other := another.getVal().(*list).val
+	newList := &list{val: make([]field, 0, len(ego.val)+len(other))}
+	newList.val = append(append(newList.val, ego.val...), other...)
 	newList.Init(newList)
 	return newList
 }
